@@ -6,6 +6,9 @@ import sys
 import traceback
 
 
+FUZZ_PIDS = ('C01', 'C02', 'C04', 'C05', 'C14')
+
+
 def model_ints(model, lo=0, hi=1 << 20):
     out = []
     for k, v in (model or {}).items():
@@ -28,6 +31,16 @@ def main():
             res = mod.known_finding(kf)
         else:
             res = mod.replay(req['obligation'], req.get('extra') or {})
+            if not res.get('found') and str(req['obligation'].get('name', '')).startswith('exploration') and pid in FUZZ_PIDS:
+                # thorough tier: random server streams against the message-level oracle (replay/fuzz.py)
+                import os
+                from replay import fuzz
+                seed = int(os.environ.get('VERIF_SEED', '0') or 0)
+                fr = fuzz.explore(seed, 1500)
+                if fr.get('found'):
+                    res = fr
+                else:
+                    res['tried'] = '%s; %s' % (res.get('tried'), fr.get('tried'))
     except Exception as e:
         res = dict(found=False, error='replay harness error: %s: %s' % (type(e).__name__, e), traceback=traceback.format_exc()[-1500:])
     print(json.dumps(res, default=lambda o: repr(o)))
